@@ -709,3 +709,61 @@ func DiffSummary(a, b proto.Message) string {
 	}
 	return strings.Join(diffs, "; ")
 }
+
+// FillEmptyNamespaces sets every EMPTY namespace-name field of every present message (also inside event blobs) to v.
+// The statement is silent about empty names (the code refuses them), so "allowed everywhere else" cases carry none.
+func FillEmptyNamespaces(m protoreflect.Message, v string) {
+	fds := m.Descriptor().Fields()
+	for i := 0; i < fds.Len(); i++ {
+		fd := fds.Get(i)
+		if IsNamespaceNameField(fd) {
+			if od := fd.ContainingOneof(); od != nil && !od.IsSynthetic() && m.WhichOneof(od) != fd {
+				continue
+			}
+			if m.Get(fd).String() == "" {
+				m.Set(fd, protoreflect.ValueOfString(v))
+			}
+			continue
+		}
+		if !m.Has(fd) {
+			continue
+		}
+		val := m.Get(fd)
+		switch {
+		case fd.IsMap():
+			if fd.MapValue().Message() != nil {
+				val.Map().Range(func(_ protoreflect.MapKey, mv protoreflect.Value) bool { FillEmptyNamespaces(mv.Message(), v); return true })
+			}
+		case fd.Message() == nil:
+		case fd.Message().FullName() == "temporal.api.common.v1.DataBlob":
+			if !EventBlobFields[string(fd.FullName())] {
+				continue
+			}
+			fix := func(bm protoreflect.Message) {
+				blob := bm.Interface().(*commonpb.DataBlob)
+				evs, err := DecodeEvents(blob)
+				if err != nil {
+					return
+				}
+				for _, ev := range evs {
+					FillEmptyNamespaces(ev.ProtoReflect(), v)
+				}
+				blob.Data = EncodeEvents(evs).Data
+			}
+			if fd.IsList() {
+				for j := 0; j < val.List().Len(); j++ {
+					fix(val.List().Get(j).Message())
+				}
+			} else {
+				fix(val.Message())
+			}
+		case fd.IsList():
+			for j := 0; j < val.List().Len(); j++ {
+				FillEmptyNamespaces(val.List().Get(j).Message(), v)
+			}
+		default:
+			FillEmptyNamespaces(val.Message(), v)
+		}
+	}
+}
+
